@@ -201,6 +201,11 @@ OutViol(ev, o, ln) ==
     ELSE IF nb = 0 THEN
         (IF Len(bytes) = 0 THEN <<>>
          ELSE <<[l |-> ln, prop |-> "C02,C13", what |-> "an output to which no block was written received data", got |-> Len(bytes)]>>)
+        \* the ledger of such an output: nothing reported, nothing received (whatever it did receive must have been reported,
+        \* at most the closing byte of a destruction excepted)
+        \o (IF Len(bytes) = o.rep \/ (o.why = "destroy" /\ Len(bytes) > 0 /\ Len(bytes) = o.rep + 1) THEN <<>>
+            ELSE <<[l |-> ln, prop |-> "C10", what |-> "sum of reported byte counts differs from the uncompressed size of an output to which no block was written",
+                    reported |-> o.rep, size |-> Len(bytes)]>>)
     ELSE
     LET P == Parse(bytes) IN
     IF ~P.ok THEN <<[l |-> ln, prop |-> "C02,C13,C01,C09", what |-> "closed output is not exactly one well-formed CBOR data item",
